@@ -157,7 +157,7 @@ def odd_names():
     return out
 
 
-# string values (no back-slash here: the escaping of back-slashes is the open finding listed for C04 / C07)
+# string values without back-slash (BACKSLASH_VALUES below hold them: their printing is an open finding of its own)
 STRING_VALUES = ["it's", "'", "''", 'a"b', '"', "a'b\"c", "'a'", 'a`b', 'a b', '', ' ', "%'", 'a\nb']
 STRING_TEMPLATES = ['SELECT {s}', 'SELECT {s}, {s}', 'SELECT * FROM t WHERE a = {s}', 'SHOW TABLES LIKE {s}', 'SET names {s}',
                     'SET charset {s}', 'INSERT INTO t (a) VALUES ({s})', 'UPDATE t SET a = {s}', 'DELETE FROM t WHERE a = {s}',
@@ -171,18 +171,48 @@ MINDSDB_STRING_TEMPLATES = ['CREATE JOB j (select 1) START {s}', 'CREATE JOB j (
 
 
 def spell_string(value, d):
-    """The spellings of a string value that the dialect can read (mysql / sqlite have no escapes at all)."""
+    """The spellings of a string value that the dialect can read (mysql / sqlite: only the doubled delimiter)."""
     out = []
     if d == 'mindsdb':
         out.append("'" + value.replace("'", "\\'") + "'")
         out.append("'" + value.replace("'", "''") + "'")
         out.append('"' + value.replace('"', '\\"') + '"')
     else:
-        if "'" not in value:
-            out.append("'" + value + "'")
-        if '"' not in value:
-            out.append('"' + value + '"')
+        # no back-slash escapes; a doubled delimiter stands for the delimiter
+        out.append("'" + value.replace("'", "''") + "'")
+        out.append('"' + value.replace('"', '""') + '"')
     return sorted(set(out))
+
+
+# values with back-slashes: alone, at the end, in front of a quote / double quote / back-slash / ordinary character
+BACKSLASH_VALUES = ['\\', 'a\\', '\\\\', 'a\\b', "a\\'b", 'a\\"b', 'a\\\\b', '\\n', "it's\\", '\\a\\']
+
+
+def spell_backslash_string(value, d):
+    """Spellings of a value with back-slashes: the mindsdb dialect reads \\\\ \\' \\" as escapes and a back-slash before any other
+    character (and before the closing quote) as itself; mysql / sqlite know no escape."""
+    out = []
+    if d == 'mindsdb':
+        esc = value.replace('\\', '\\\\')
+        out.append("'" + esc.replace("'", "\\'") + "'")
+        out.append("'" + esc.replace("'", "''") + "'")
+        out.append('"' + esc.replace('"', '\\"') + '"')
+        if "'" not in value and '"' not in value and '\\\\' not in value and not value.endswith('\\'):
+            out.append("'" + value + "'")           # a back-slash before an ordinary character needs no escape
+    else:
+        out.append("'" + value.replace("'", "''") + "'")
+        out.append('"' + value.replace('"', '""') + '"')
+    return sorted(set(out))
+
+
+def backslash_values():
+    out = []
+    for d in DIALECTS:
+        for v in BACKSLASH_VALUES:
+            for s in spell_backslash_string(v, d):
+                for t in STRING_TEMPLATES + (MINDSDB_STRING_TEMPLATES if d == 'mindsdb' else []):
+                    out.append((d, t.replace('{s}', s), 'shape:backslash-value'))
+    return out
 
 
 def string_values():
@@ -215,6 +245,131 @@ def long_numbers():
     return out
 
 
+# ---- CREATE TABLE with a column list: every column form of the grammar x every key list
+CT_HEADS = ['CREATE TABLE t', 'CREATE OR REPLACE TABLE t', 'CREATE TABLE IF NOT EXISTS db.t']
+CT_BASE = ['{n} {t}', '{n} {t} DEFAULT {v}', '{n} {t} PRIMARY KEY', '{n} {t}({l})', '{n} {t}({l}) DEFAULT {v}']
+CT_NULL = ['', ' NULL', ' NOT NULL']
+CT_COLS = (('a', 'int', 'x', '1'), ('b', 'varchar', 'CURRENT_TIMESTAMP', '36'), ('c', 'char', 'y', '2'))
+CT_NAMES = ['id', '`a b`', '`primary`', 'A']
+CT_TYPES = ['int', 'VARCHAR', '`my type`', 'timestamp']
+CT_DEFAULTS = ['x', 'CURRENT_TIMESTAMP', '`x y`', '`null`']
+
+
+def create_table_columns():
+    """CREATE TABLE t (<column>, ... [, PRIMARY KEY (<names>)]): the five column rules of the grammar with and without NULL /
+    NOT NULL for one and two columns (all pairs) and three columns (base forms), with every key list over the columns
+    (one column, several, both orders), the key list last / first / in the middle; names, types and defaults that are
+    quoted or spelled like keywords."""
+    out = []
+    n = [0]
+
+    def col(i, base, null=''):
+        name, ty, dv, ln = CT_COLS[i]
+        return base.format(n=name, t=ty, v=dv, l=ln) + null
+
+    def emit(cols, key=None, pos='last', head=None):
+        items = list(cols)
+        if key:
+            k = f'PRIMARY KEY ({", ".join(key)})'
+            items.insert({'last': len(items), 'first': 0, 'middle': 1}[pos], k)
+        n[0] += 1
+        h = CT_HEADS[n[0] % len(CT_HEADS)] if head is None else head
+        out.append(('mindsdb', f'{h} ({", ".join(items)})', 'shape:create-table'))
+
+    forms = [(b, s) for b in CT_BASE for s in CT_NULL]
+    for b, s in forms:
+        for head in CT_HEADS:
+            emit([col(0, b, s)], head=head)
+            emit([col(0, b, s)], ['a'], head=head)
+    for (b0, s0), (b1, s1) in itertools.product(forms, repeat=2):
+        cols = [col(0, b0, s0), col(1, b1, s1)]
+        for key in (None, ['a'], ['b'], ['a', 'b'], ['b', 'a']):
+            emit(cols, key)
+    for b0, b1 in itertools.product(CT_BASE, repeat=2):
+        for key in (['a'], ['b'], ['a', 'b'], ['b', 'a']):
+            for pos in ('first', 'middle'):
+                emit([col(0, b0), col(1, b1)], key, pos)
+    for b0, b1, b2 in itertools.product(CT_BASE, repeat=3):
+        for key in (['a'], ['b'], ['c'], ['c', 'a'], ['a', 'b', 'c']):
+            emit([col(0, b0), col(1, b1), col(2, b2)], key)
+    for name, ty, dv, b in itertools.product(CT_NAMES, CT_TYPES, CT_DEFAULTS, CT_BASE):
+        if '{v}' not in b and dv != CT_DEFAULTS[0]:
+            continue
+        c0 = b.format(n=name, t=ty, v=dv, l='10')
+        out.append(('mindsdb', f'CREATE TABLE t ({c0}, PRIMARY KEY ({name}))', 'shape:create-table'))
+        out.append(('mindsdb', f'CREATE TABLE t ({c0}, z text, PRIMARY KEY (z, {name}))', 'shape:create-table'))
+    for d in ('mysql', 'sqlite'):       # (no column definitions in these grammars today: rejected, counted as such)
+        for b in CT_BASE:
+            out.append((d, f'CREATE TABLE t ({col(0, b)}, PRIMARY KEY (a))', 'shape:create-table'))
+    return out
+
+
+# ---- queries with clauses of their own (WITH in front / USING behind) in every position that takes a nested query
+SETOP_WORDS = ['UNION', 'UNION ALL', 'INTERSECT', 'INTERSECT ALL', 'EXCEPT', 'EXCEPT ALL']
+# {o} = the operation word, {A} {B} = operands
+QUERY_FORMS = ['({A} {o} {B}) USING k=1',
+               'WITH x AS (SELECT 1) ({A} {o} {B})',
+               'WITH x AS (SELECT 1), y (c, d) AS (SELECT 1, 2) ({A} {o} {B})',
+               "WITH x AS (SELECT 1) ({A} {o} {B}) USING k=1, j='v'",
+               'WITH x AS (SELECT 1 {o} SELECT 2) ({A} {o} {B})',
+               '({A} {o} {B})',
+               '{A} {o} {B}',
+               'WITH x AS (SELECT 1) {A} {o} {B}',
+               '{A} {o} {B} USING k=1',
+               'WITH x AS (SELECT 1) {A} USING k=1']
+OWN_CLAUSE_FORMS = QUERY_FORMS[:5]
+OPERAND_PAIRS = [('SELECT 1', 'SELECT 2'),
+                 ('SELECT a FROM t1', 'SELECT a FROM t2 WHERE a > 1'),
+                 ('(SELECT a FROM t1 LIMIT 1)', 'SELECT * FROM x'),
+                 ('(SELECT 1 UNION SELECT 2)', 'SELECT 3'),
+                 ('SELECT 3', '(SELECT 1 INTERSECT SELECT 2)'),
+                 ('((SELECT 1 EXCEPT SELECT 2) USING b=2)', 'SELECT 3'),
+                 ('SELECT 3', '(WITH z AS (SELECT 1) (SELECT 1 UNION ALL SELECT 2))')]
+QUERY_CONTEXTS = ['{X}', 'SELECT * FROM ({X}) AS t', 'SELECT * FROM ({X})', 'SELECT * FROM ({X}) t',
+                  'SELECT * FROM t1 JOIN ({X}) AS t ON t1.a = t.a', 'SELECT * FROM ({X}) AS t JOIN t2', 'SELECT * FROM t1, ({X}) AS t',
+                  'SELECT * FROM t1 LEFT JOIN ({X}) ON 1 = 1', 'SELECT * FROM (({X})) AS t',
+                  'SELECT * FROM t WHERE a IN ({X})', 'SELECT * FROM t WHERE a NOT IN ({X})', 'SELECT * FROM t WHERE EXISTS ({X})',
+                  'SELECT * FROM t WHERE a = ({X})', 'SELECT ({X})', 'SELECT ({X}) AS c, 1', 'SELECT f(({X}))', 'SELECT f(1, ({X}))',
+                  'SELECT CASE WHEN a THEN ({X}) END', 'SELECT -({X})', 'SELECT ({X}) + 1', 'SELECT * FROM t ORDER BY ({X})',
+                  'SELECT * FROM t WHERE a BETWEEN ({X}) AND 2', 'SELECT a FROM t GROUP BY a HAVING a > ({X})',
+                  'WITH c AS ({X}) SELECT * FROM c', 'CREATE TABLE t ({X})', 'CREATE TABLE t {X}', 'CREATE VIEW v AS ({X})',
+                  'INSERT INTO t {X}', 'INSERT INTO t (a) {X}', 'INSERT INTO t ({X})', 'UPDATE t SET a = ({X})',
+                  'DELETE FROM t WHERE a IN ({X})', 'UPDATE t SET a=1 FROM ({X}) AS s WHERE t.a = s.a',
+                  'SELECT 3 UNION ({X})', '({X}) UNION SELECT 3', 'SELECT 3 EXCEPT ALL ({X}) ', '(({X}) INTERSECT SELECT 3) USING q=1',
+                  'SELECT * FROM (SELECT * FROM ({X}) AS u) AS t', 'SELECT * FROM t WHERE a IN (SELECT b FROM ({X}) AS u)']
+CORE_CONTEXTS = [QUERY_CONTEXTS[i] for i in (0, 1, 2, 4, 9, 12, 13, 23, 33)]
+
+
+def nested_queries():
+    """A query that has clauses of its own -- WITH in front of / USING behind a parenthesised UNION / INTERSECT / EXCEPT, or
+    of a plain select -- as the whole statement, in FROM (with / without alias, join operand), in expressions (IN, EXISTS,
+    comparison, target, argument, CASE, ORDER BY ...), as CTE body, in CREATE TABLE / VIEW / INSERT / UPDATE / DELETE and as
+    operand of another set operation: every context x every form x every operation word (simple operands), and the forms
+    with own clauses x operand shapes (parenthesised / nested operations with their own clauses) in the core contexts."""
+    out = []
+    for ctx in QUERY_CONTEXTS:
+        for form in QUERY_FORMS:
+            for o in SETOP_WORDS:
+                if '{o}' not in form and o != SETOP_WORDS[0]:
+                    continue
+                a, b = OPERAND_PAIRS[0]
+                out.append(('mindsdb', ctx.format(X=form.format(A=a, B=b, o=o)), 'shape:nested-query'))
+    i = 0
+    for ctx in CORE_CONTEXTS:
+        for form in OWN_CLAUSE_FORMS:
+            for a, b in OPERAND_PAIRS[1:]:
+                for j in (0, 1):
+                    i += 1
+                    o = SETOP_WORDS[i % len(SETOP_WORDS)]
+                    out.append(('mindsdb', ctx.format(X=form.format(A=a, B=b, o=o)), 'shape:nested-query'))
+    for d in ('mysql', 'sqlite'):
+        for ctx in CORE_CONTEXTS:
+            for form in QUERY_FORMS:
+                a, b = OPERAND_PAIRS[0]
+                out.append((d, ctx.format(X=form.format(A=a, B=b, o='UNION')), 'shape:nested-query'))
+    return out
+
+
 def all_shapes(lex):
     return (function_names(lex) + show_spellings() + adjacent_names(lex) + predictor_clause_orders() + odd_names()
-            + string_values() + long_numbers())
+            + string_values() + backslash_values() + long_numbers() + create_table_columns() + nested_queries())
